@@ -1776,8 +1776,10 @@ def plan(tier):
     from vf import progrun
 
     specs = progrun.plan_cases(tier, 800, 10000)
-    for s in specs:
-        s["steps"] = 25 if tier == "quick" else 40
+    for i, s in enumerate(specs):
+        # a 40-step history costs ~5x a 25-step one (full pool, deeper expressions): thorough runs a third of its
+        # shards at 40 steps and the rest at 25 to stay within ~8 min on 16 idle cores
+        s["steps"] = 25 if tier == "quick" or i % 3 else 40
     return specs
 
 
